@@ -1,4 +1,5 @@
 import BluetoeModel.AttWriteQueue.Lemmas
+import BluetoeModel.AttWriteQueue.History
 /-!
   # C07 — Prepared writes are deferred, per-client and applied in order
 
@@ -154,5 +155,166 @@ theorem prepare_iff_write_permitted (s : State) (c S : Nat) (conn : Conn)
       by_cases hrc : w.rc = .success
       · simp [hw, hrc, h3, cbCount]
       · simp [hw, hrc, errorResponse]
+
+/-! ## "Execute Write with flag 1 applies exactly the queued writes of that client in queue order"
+
+  `track` / `trackAll` (History.lean) compute, from the *answers* of a history alone, who holds the
+  queue and which prepared writes were accepted for him since the queue was last released.
+  `reachable_inv` shows that for every history the byte queue of the model is exactly the encoding
+  of that list (so nothing else ever gets into the queue, nothing is lost, the order is kept, other
+  clients' requests never touch it); `execute_applies_in_order` shows that Execute Write applies
+  that list front to back with the connection's own security attributes and configuration,
+  stopping at the first failing write as the code does. -/
+
+theorem step_tracks (s : State) (g : Ghost) (h : Rel s.queue g)
+    (hS : ∀ S, s.base.decl.queueSize = some S → S < 65536) (op : Op) :
+    Rel (step s op).1.queue (track g op (step s op).2) := by
+  cases op with
+  | sec c e p =>
+    simp only [step, Op.conn, track]
+    split
+    · exact h
+    · simp only [stepConn]; exact h
+  | mtu c n =>
+    simp only [step, Op.conn, track]
+    split
+    · exact h
+    · simp only [stepConn]; split <;> exact h
+  | disc c =>
+    simp only [step, Op.conn, track]
+    split
+    · simp only [reduceCtorEq, false_and, if_false]; exact h
+    · simp only [true_and]; exact free_rel h c
+  | pdu c bytes =>
+    rcases bytes with _ | ⟨o, rest⟩
+    · simp only [step, Op.conn, track]; split <;> exact h
+    · simp only [step, Op.conn, track]
+      split
+      · simp only [accepted, executed, Bool.false_eq_true, false_and, if_false]
+        split <;> (try split) <;> exact h
+      · rename_i conn hc
+        cases hq : s.base.decl.queueSize with
+        | none =>
+          simp only [Cccd.step, Op.conn, hc]
+          by_cases h16 : o = 0x16
+          · subst h16
+            simp only [true_or, if_true, accepted_error, Bool.false_eq_true, if_false]; exact h
+          · by_cases h18 : o = 0x18
+            · subst h18
+              simp only [or_true, if_true, h16, if_false, executed, errorResponse]
+              simp; exact h
+            · simp only [h16, h18, or_self, if_false]; exact h
+        | some S =>
+          by_cases h16 : o = 0x16
+          · subst h16; simp only [if_true]; exact handlePrepare_tracks s g h S (hS S hq) c conn rest
+          · by_cases h18 : o = 0x18
+            · subst h18; simp only [h16, if_false, if_true]; exact handleExecute_tracks s g h c conn rest
+            · simp only [h16, h18, if_false]; exact h
+
+/-- **reachable_inv**: started from a state whose queue encodes `g`, after any history the queue
+    encodes what `trackAll` computes from the answers -/
+theorem reachable_inv (s : State) (g : Ghost) (h : Rel s.queue g)
+    (hS : ∀ S, s.base.decl.queueSize = some S → S < 65536) (ops : List Op) :
+    Rel (run s ops).1.queue (trackAll g ops (run s ops).2) := by
+  induction ops generalizing s g with
+  | nil => exact h
+  | cons op ops ih =>
+    have h1 := step_tracks s g h hS op
+    have h2 := step_decl s op
+    simp only [run]
+    rcases hst : step s op with ⟨s', o⟩
+    rw [hst] at h1 h2
+    have h3 := ih s' (track g op o) h1 (fun S hq => hS S (by rw [← h2]; exact hq))
+    rcases hrun : run s' ops with ⟨s'', os⟩
+    rw [hrun] at h3
+    simpa only [trackAll] using h3
+
+/-- **queue_tracks_history**: for every declaration (queue size a `uint16_t`), every initial
+    memory and every interleaving of requests, link state changes and disconnects of all
+    connections: the queue is held by the tracked owner and decodes to exactly the accepted
+    prepared writes of that client, in the order they were accepted -/
+theorem queue_tracks_history (d : Decl) (mem : Mem) (hS : ∀ S, d.queueSize = some S → S < 65536)
+    (ops : List Op) :
+    (run (State.init d mem) ops).1.queue.owner
+        = (trackAll ⟨none, []⟩ ops (run (State.init d mem) ops).2).owner ∧
+    elements (run (State.init d mem) ops).1.queue.buf
+        = some (trackAll ⟨none, []⟩ ops (run (State.init d mem) ops).2).items := by
+  have h := reachable_inv (State.init d mem) ⟨none, []⟩ rel_empty hS ops
+  exact ⟨h.owner, by rw [h.buf]; exact elements_encode _ h.len⟩
+
+/-- non-vacuity: two connections interleaved on a 16 byte queue; the second prepare of connection
+    0 is accepted, the one of connection 1 is refused, the tracked list has two entries -/
+example :
+    let d : Decl := { attrs := [.ro, .ro, .value 0 4 true true false], queueSize := some 16 }
+    let ops : List Op := [.pdu 0 [0x16, 3, 0, 0, 0, 0xaa], .pdu 1 [0x16, 3, 0, 0, 0, 0xbb], .pdu 0 [0x16, 3, 0, 1, 0, 0xcc]]
+    (trackAll ⟨none, []⟩ ops (run (State.init d [[1, 2, 3, 4]]) ops).2)
+      = ⟨some 0, [[3, 0, 0, 0, 0xaa], [3, 0, 1, 0, 0xcc]]⟩ := by decide
+
+theorem elementsOf_rel {q : Queue} {g : Ghost} (h : Rel q g) {c : Nat} (ho : g.owner = some c) :
+    q.elementsOf c = some g.items := by
+  unfold Queue.elementsOf
+  rw [h.owner, ho, h.buf]
+  cases hi : g.items with
+  | nil => simp [encode]
+  | cons e es =>
+    have : encode (e :: es) ≠ [] := by simp [encode]
+    simp only [ne_eq, not_true_eq_false, this, or_self, if_false]
+    exact elements_encode _ (by rw [← hi]; exact h.len)
+
+/-- **execute_applies_in_order**: Execute Write (flags 1) of the holder applies the tracked writes
+    with `applyQueued` — front to back, each with the connection's security attributes and client
+    configuration at its own handle / offset, stopping at the first write that fails — answers
+    with the Execute Write Response or the error of the failing write, and releases the queue -/
+theorem execute_applies_in_order (s : State) (c S : Nat) (conn : Conn) (g : Ghost)
+    (hc : s.base.conns[c]? = some conn) (hq : s.base.decl.queueSize = some S)
+    (h : Rel s.queue g) (ho : g.owner = some c) :
+    step s (.pdu c [0x18, 0x01]) =
+      match applyQueued s.base.decl conn.sec s.base.mem conn.cfg 0 g.items with
+      | none => (s, .oob)
+      | some r =>
+          ({ base := setConn { s.base with mem := r.mem } c { conn with cfg := r.cfg }, queue := Queue.empty },
+           match r.fail with
+           | some (rc, hd) => .resp (errorResponse 0x18 (if rc = .invalidLength then 0x0d else 0x07) hd) r.cb
+           | none => .resp [0x19] r.cb) := by
+  have hfree : s.queue.free c = Queue.empty := free_owner _ _ (by rw [h.owner]; exact ho)
+  simp only [step, Op.conn, hc, hq, handleExecute, elementsOf_rel h ho, hfree,
+    show ¬ ((0x18 : UInt8) = 0x16) by decide, if_false, if_true,
+    show ¬ ((1 : UInt8) ≠ 0 ∧ (1 : UInt8) ≠ 1) by decide]
+  cases applyQueued s.base.decl conn.sec s.base.mem conn.cfg 0 g.items with
+  | none => rfl
+  | some r => cases r.fail <;> rfl
+
+/-- the order matters and is the queue order: two queued writes to the same byte, the later wins -/
+example :
+    let d : Decl := { attrs := [.ro, .ro, .value 0 2 true true false], queueSize := some 64 }
+    (applyQueued d {} [[1, 2]] [] 0 [[3, 0, 0, 0, 0xaa], [3, 0, 0, 0, 0xbb]]).map (·.mem) = some [[0xbb, 2]] := by
+  decide
+
+/-! ## the defect repaired by fixes/attwq-01 (for the record)
+
+  Before the fix the permission probe of Prepare Write was
+  `attribute_access_arguments::check_write( server )`: default security attributes (not
+  encrypted, no key) and a default (null) client configuration. -/
+
+/-- the unfixed probe -/
+def probeUnfixed (mem : Mem) (a : Attr) : Option WriteRes := writeAccess mem [] {} a 0 []
+
+/-- what the property demands of the probe: it answers like a write on the connection would -/
+def unfixed_probe_full : Prop :=
+  ∀ (mem : Mem) (cfg : Config) (sec : Sec) (a : Attr),
+    (probeUnfixed mem a).map (·.rc) = (writeAccess mem cfg sec a 0 []).map (·.rc)
+
+/-- **witness**: on an encrypted link a write to a `requires_encryption` value is permitted, the
+    unfixed probe says Insufficient Authentication; for a CCCD the unfixed probe dereferences the
+    null configuration (`none`) -/
+theorem unfixed_probe_witness : ¬ unfixed_probe_full := by
+  intro h
+  have h1 := h [[1, 2]] [] ⟨true, 1⟩ (.value 0 2 true true true)
+  revert h1
+  decide
+
+example : (probeUnfixed [[1, 2]] (.value 0 2 true true true)).map (·.rc) = some .insufficientAuth := by decide
+example : probeUnfixed [] (.cccd 0 false) = none := by decide
+example : (writeAccess [] [0] {} (.cccd 0 false) 0 []).map (·.rc) = some .success := by decide
 
 end BluetoeModel.AttWriteQueue
